@@ -6,7 +6,7 @@ import RimuProofs.Lemmas.NIPBlock
 
 namespace Rimu
 
-variable {b : Bool}
+variable {b : Reg}
 
 theorem updateFrom_nip (o : RenderOptions) : NIP b (updateFrom o) := by
   have h := setOption_nip (b := b)
